@@ -13,12 +13,16 @@ import Verif.Model.Renew
                  proved), output allow | refuse | crash
       entry=token: POST /1.0/renew with a renew token (`apiRenew`), output allow | refuse | crash
 
-  renew|rekey subj= ku= eku= ueku= uce= bc= ca= mpl= mplz= ocsp= iurl= dns= em= ip= uri= ncc=
-      pd= xd= pi= xi= pe= xe= pu= xu= crl= pol= key= nkey= nb= na= nyv= exp= bd= exts= gen= aki= nski=
+  renew|rekey via=direct|api subj= ku= eku= ueku= uce= bc= ca= mpl= mplz= ocsp= iurl= dns= em= ip= uri= ncc=
+      pd= xd= pi= xi= pe= xe= pu= xu= crl= pol= key= nkey= nkok= over= oalg= oiss= oski= nb= na= nyv= exp= bd= exts= gen= aki= nski= ealg= eiss=
       lists joined by ',' (`-` when empty); byte strings `x<hex>`; OIDs dotted; `exts`/`gen`
       entries `oid/crit/x<hex>`; `nkey=!` on renew.
-      output: issued key= subj= dur= exts= fdiff= keep=ok|bad serial=new sig=ok win=ok | signerr | refuse:<reason> | crash
+      output: issued key= subj= ver= alg= iss= tbs= dur= exts= fdiff= keep=ok|bad serial=new sig=ok win=ok | signerr | refuse:<reason> | crash
   fidspec op=renew|rekey hasski=0|1   output: `fdiff=- key=ok` (renew) | `fdiff=ski key=ok` (rekey): what the property allows to differ
+  hrenew / hrekey: the HTTP handlers on the request as received (see `hrenew`, `hrekey` below)
+      output: created | badrequest | refuse | crash
+  fact name=<n>   output: table:<the Lean table of that name (Model/Renew.lean section 9), items joined by ','>
+  mig …   renewal flags through configuration, migration to the admin database, restart (see `mig`)
   unissued …   (the template was not issuable; nothing to renew)  output: not-issued
 -/
 open Verif Verif.Renew
@@ -90,6 +94,7 @@ def reasonS : Reason → String
   | .provisionerNotFound => "notfound" | .uninitialized => "uninitialized"
   | .notImplemented => "notimplemented" | .renewDisabled => "disabled"
   | .notYetValid => "notyetvalid" | .expired => "expired" | .customRefused => "custom"
+  | .keyRejected => "key"
 
 def noFields : Fields :=
   { rawSubject := [], keyUsage := 0, extKeyUsage := [], unknownExtKeyUsage := [], unhandledCritical := [],
@@ -100,12 +105,14 @@ def noFields : Fields :=
 
 /-- the gate lines carry no certificate: any renewable one will do -/
 def dummyCert : Cert :=
-  { f := noFields, publicKey := [], serial := 0, notBefore := 0, notAfter := 86400, issuer := [], extensions := [] }
+  { f := noFields, version := 3, serial := 0, sigAlg := [], issuer := [], notBefore := 0, notAfter := 86400,
+    publicKey := [], subjectKeyId := [], extensions := [] }
 
 def dummyEnv : Env :=
   { enc := { ku := fun _ => [], eku := fun _ => [], bc := fun _ => [], ski := id, aki := id, aia := fun _ => [],
-             san := fun _ => [], pol := fun _ => [], nc := fun _ => [], crl := fun _ => [] }
-    now := 0, backdate := 60, serial := 1, issuerSubject := [], parentSKI := [], skiOf := id }
+             san := fun _ => [], pol := fun _ => [], nc := fun _ => [], crl := fun _ => [], skiDec := id }
+    now := 0, backdate := 60, serial := 1, issuerSubject := [], parentSKI := [], skiOf := id, sha1Of := id,
+    sigAlg := [], keyOK := fun _ => true }
 
 def gate (kv : List (String × String)) : Option String := do
   let mode ← lookup kv "mode"
@@ -196,31 +203,112 @@ def fidelity (isRekey : Bool) (kv : List (String × String)) : Option String := 
   let gen ← list? ext? (← g "gen")
   let old : Cert := {
     f, publicKey := key, serial := 0
+    version := (← (← g "over").toNat?), sigAlg := (← str? (← g "oalg")), issuer := (← str? (← g "oiss"))
+    subjectKeyId := (← str? (← g "oski"))
     notBefore := (← int? (← g "nb")), notAfter := (← int? (← g "na"))
-    issuer := [], extensions := exts }
+    extensions := exts }
   let val := fun (o : Oid) => ((extOf o gen).map (·.value)).getD (s "missing")
   let enc : Enc := {
     ku := fun _ => val oidKU, eku := fun _ => val oidEKU, bc := fun _ => val oidBC
     ski := fun _ => val oidSKI, aki := fun _ => val oidAKI, aia := fun _ => val oidAIA
     san := fun _ => val oidSAN, pol := fun _ => val oidPol, nc := fun _ => val oidNC
-    crl := fun _ => val oidCRLDP }
+    crl := fun _ => val oidCRLDP
+    -- content of a short-form DER OCTET STRING
+    skiDec := fun v => v.drop 2 }
   let nski ← str? (← g "nski")
+  let nkok ← bool? (← g "nkok")
   let env : Env := {
-    enc, now := 0, backdate := (← int? (← g "bd")), serial := 1, issuerSubject := []
-    parentSKI := (← str? (← g "aki")), skiOf := fun _ => nski }
+    enc, now := 0, backdate := (← int? (← g "bd")), serial := 1
+    issuerSubject := (← str? (← g "eiss")), sigAlg := (← str? (← g "ealg"))
+    parentSKI := (← str? (← g "aki")), skiOf := fun _ => nski
+    -- crypto/x509's fallback for CA templates without identifier: the harness's reference
+    -- certificate carries whatever identifier the library derived, under the same OID
+    sha1Of := fun _ => nski
+    keyOK := fun _ => nkok }
   -- the certificate was just issued by a present provisioner with default claims; the two clock
   -- comparisons are inputs
   let i : GateIn := ⟨.no, .found (.ctl false false .none) false, .found (.ctl false false .none),
     (← bool? (← g "nyv")), (← bool? (← g "exp"))⟩
+  let api := (g "via") == some "api"
   match renew current env i old pk with
   | .crash => pure "crash"
-  | .val (.refused r) => pure s!"refuse:{reasonS r}"
-  | .val (.signError _) => pure "signerr"
+  | .val (.refused r) => pure (if api then "refuse" else s!"refuse:{reasonS r}")
+  | .val (.signError _) => pure (if api then "refuse" else "signerr")
   | .val (.issued c) =>
     -- the property's list clause evaluated on the predicted certificate
     let strip := fun (es : List Ext) => dropOid oidAKI (if isRekey then dropOid oidSKI es else es)
     let keep := if strip c.extensions == strip old.extensions then "ok" else "bad"
-    pure s!"issued key=x{hex c.publicKey} subj=x{hex c.f.rawSubject} dur={c.notAfter - c.notBefore} exts={listS (c.extensions.map extS)} fdiff={listS (fdiff old c)} keep={keep} serial=new sig=ok win=ok"
+    -- TBSCertificate components besides serial, validity, key and extensions: which of them differ
+    let tbs := (if c.version == old.version then [] else ["ver"]) ++ (if c.sigAlg == old.sigAlg then [] else ["alg"]) ++
+      (if c.issuer == old.issuer then [] else ["iss"])
+    pure s!"issued key=x{hex c.publicKey} subj=x{hex c.f.rawSubject} ver={c.version} alg=x{hex c.sigAlg} iss=x{hex c.issuer} tbs={listS tbs} dur={c.notAfter - c.notBefore} exts={listS (c.extensions.map extS)} fdiff={listS (fdiff old c)} keep={keep} serial=new sig=ok win=ok"
+
+/-! ### the handlers on the request as received -/
+
+def apiS : ApiResult → String
+  | .created _ => "created" | .badRequest => "badrequest" | .crash => "crash"
+  | .unauthorized => "refuse" | .refused _ => "refuse" | .signError => "refuse"
+
+def gateIn? (kv : List (String × String)) : Option GateIn := do
+  pure {
+    revoked := (← rev? (← lookup kv "rev"))
+    db := (← db? (← lookup kv "db"))
+    ext := (← extl? (← lookup kv "ext"))
+    notYetValid := (← bool? (← lookup kv "nyv"))
+    expired := (← bool? (← lookup kv "exp")) }
+
+/-- hrenew <gate fields> peer=0|1 auth=x<hex of the Authorization header> tok=<six bits>|- -/
+def hrenew (kv : List (String × String)) : Option String := do
+  let i ← gateIn? kv
+  let peer ← bool? (← lookup kv "peer")
+  let auth ← str? (← lookup kv "auth")
+  let bits ← lookup kv "tok"
+  let tc : Bool × Bool × Bool × Bool × Bool × Bool ←
+    if bits = "-" then pure (false, false, false, false, false, false) else
+    match bits.toList.map fun c => c == '1' with
+    | [a, b, c, d, e, f] => pure (a, b, c, d, e, f)
+    | _ => none
+  pure (apiS (handleRenew current dummyEnv i dummyCert ⟨peer, auth⟩ (fun _ => tc)))
+
+/-- hrekey <gate fields> peer= body= csr= sig= nkok= -/
+def hrekey (kv : List (String × String)) : Option String := do
+  let i ← gateIn? kv
+  let b := fun k => do bool? (← lookup kv k)
+  let nkok ← b "nkok"
+  let env := { dummyEnv with keyOK := fun _ => nkok }
+  pure (apiS (handleRekey current env i dummyCert
+    ⟨(← b "peer"), (← b "body"), (← b "csr"), (← b "sig"), [1]⟩))
+
+/-- mig mode=coded|spec phase=config|migrated|restarted gd= ga= pc=nil|<d><a> exp=0|1   (flags: - 0 1) -/
+def mig (kv : List (String × String)) : Option String := do
+  let tri : Char → Option (Option Bool) := fun c =>
+    if c == '-' then some none else if c == '0' then some (some false) else if c == '1' then some (some true) else none
+  let one := fun k => do
+    match (← lookup kv k).toList with
+    | [c] => tri c
+    | _ => none
+  let g : GlobalFlags := ⟨(← one "gd").getD false, (← one "ga").getD false⟩
+  let pcS ← lookup kv "pc"
+  let pc : Option RFlags ← if pcS = "nil" then pure none else
+    match pcS.toList with
+    | [d, a] => do pure (some ⟨(← tri d), (← tri a)⟩)
+    | _ => none
+  let ph : Phase ← match (← lookup kv "phase") with
+    | "config" => pure .config | "migrated" => pure .migrated | "restarted" => pure .restarted | _ => none
+  let exp ← bool? (← lookup kv "exp")
+  match (← lookup kv "mode") with
+  | "coded" =>
+    match Renew.decide current (phaseGate current g pc ph exp) with
+    | .crash => pure "crash"
+    | .val .allow => pure "allow"
+    | .val (.refuse r) => pure s!"refuse:{reasonS r}"
+  | "spec" =>
+    -- the flags the operator configured keep their effect in every phase
+    match Renew.decide withMigrationRepair (phaseGate withMigrationRepair g pc ph exp) with
+    | .crash => pure "crash"
+    | .val .allow => pure "allow"
+    | .val (.refuse _) => pure "refuse"
+  | _ => none
 
 def eval (line : String) : Option String :=
   match fields line with
@@ -235,6 +323,13 @@ def eval (line : String) : Option String :=
     | "renew" => fidelity false kv
     | "rekey" => fidelity true kv
     | "unissued" => some "not-issued"
+    | "fact" =>
+      match lookup kv "name" with
+      | some n => (factTable n).map fun t => "table:" ++ listS t
+      | none => none
+    | "mig" => mig kv
+    | "hrenew" => hrenew kv
+    | "hrekey" => hrekey kv
     | "fidspec" =>
       -- the property itself: parsed field groups that may differ between old and new certificate
       match lookup kv "op" with
